@@ -211,8 +211,16 @@ func affDet(k int) float64 {
 }
 
 func spellRing(r ring, s spell, dx int64) geom.Path {
+	return spellRingInto(nil, r, s, dx)
+}
+
+// spellRingInto writes the spelling into buf's storage when buf has room.
+func spellRingInto(buf geom.Path, r ring, s spell, dx int64) geom.Path {
 	n := len(r)
-	out := make(geom.Path, 0, n+1)
+	out := buf[:0]
+	if cap(buf) < n+1 {
+		out = make(geom.Path, 0, n+1)
+	}
 	for i := 0; i < n; i++ {
 		k := (i + s.rot) % n
 		if s.rev {
@@ -253,16 +261,44 @@ func close(a, b, scale float64) bool { return math.Abs(a-b) <= 1e-9*math.Max(1, 
 var rep *report.Run
 var nEval, nNontrivial int64
 
+// reuseStore, when set (sequential pass only), makes judge build every
+// spelling in ONE multi-polygon value whose slices are rewritten in place.
+var reuseStore *struct {
+	mp   geom.MultiPolygon
+	bufs [][]geom.Path
+}
+
 // judge evaluates one spelling of a multi-polygon (members at x offsets).
 func judge(ps []poly, sp [][]spell, asMulti bool, aff int) {
 	var mp geom.MultiPolygon
 	allClosed, alternating := true, true
 	var dir0 int
+	if st := reuseStore; st != nil && st.mp == nil {
+		st.mp = make(geom.MultiPolygon, len(ps))
+		st.bufs = make([][]geom.Path, len(ps))
+		for m, p := range ps {
+			st.mp[m] = make(geom.Polygon, 0, len(p))
+			st.bufs[m] = make([]geom.Path, len(p))
+			for i, r := range p {
+				st.bufs[m][i] = make(geom.Path, 0, len(r)+1)
+			}
+		}
+		mp = st.mp[:0]
+	} else if st != nil {
+		mp = st.mp[:0]
+	}
 	for m, p := range ps {
 		var g geom.Polygon
+		if reuseStore != nil {
+			g = reuseStore.mp[:len(ps)][m][:0]
+		}
 		for i, r := range p {
 			s := sp[m][i]
-			g = append(g, spellRing(r, s, int64(20*m)))
+			if reuseStore != nil {
+				g = append(g, spellRingInto(reuseStore.bufs[m][i], r, s, int64(20*m)))
+			} else {
+				g = append(g, spellRing(r, s, int64(20*m)))
+			}
 			if !s.closed {
 				allClosed = false
 			}
@@ -500,7 +536,7 @@ func main() {
 		return
 	}
 	rep = report.New("C03", tier, "model_checking")
-	rep.Rule = "E1: catalogue of valid polygons on a 12x12 integer grid (7 shells x all valid subsets of <=2 disjoint holes out of 7) under the FULL orbit of per-ring reversal x start rotation x closed/unclosed spelling (polygons), multi-polygons of 1-3 disjoint members with every subset of <=2(3) rings varied over their full orbit plus whole-geometry reversal; Area for every spelling, Polygon.Centroid/op.Centroid/op.Area on alternately wound spellings, MultiPolygon.Centroid on every closed spelling; all line strings of <=4 points over {0..2}^2 x 49 half-integer query points for Length/Distance/op.Length; Point.Buffer for radius {0,.5,1,1e6} x segments 3..16 x 3 centres. every fifth spelling again under 3 affine maps with non-representable coefficients (area scales by |det|, the centroid maps affinely; relative tolerance 1e-9). Oracle: exact integer shoelace / centroid sums, exact squared distances. Non-trivial = spellings that are not the canonical alternately wound closed one."
+	rep.Rule = "E1: catalogue of valid polygons on a 12x12 integer grid (7 shells x all valid subsets of <=2 disjoint holes out of 7) under the FULL orbit of per-ring reversal x start rotation x closed/unclosed spelling (polygons), multi-polygons of 1-3 disjoint members with every subset of <=2(3) rings varied over their full orbit plus whole-geometry reversal; Area for every spelling, Polygon.Centroid/op.Centroid/op.Area on alternately wound spellings, MultiPolygon.Centroid on every closed spelling; all line strings of <=4 points over {0..2}^2 x 49 half-integer query points for Length/Distance/op.Length; Point.Buffer for radius {0,.5,1,1e6} x segments 3..16 x 3 centres. every fifth spelling again under 3 affine maps with non-representable coefficients (area scales by |det|, the centroid maps affinely; relative tolerance 1e-9). The full orbit of every fifth polygon again on one value rewritten in place (history), and every unclosed / every 8th spelling also cut from one flat vertex buffer (layout). Oracle: exact integer shoelace / centroid sums, exact squared distances. Non-trivial = spellings that are not the canonical alternately wound closed one."
 	cat := catalogue()
 	rep.Set("catalogue_polygons", len(cat))
 	maxVary := 2
@@ -515,6 +551,20 @@ func main() {
 			rep.Sample(8, fmt.Sprintf("polygon %v full orbit", cat[i]))
 		}
 	})
+	// history on one value: the full orbit of every fifth polygon again, in one
+	// goroutine, on ONE polygon / multi-polygon value whose ring slices are
+	// rewritten (and re-sliced) in place from spelling to spelling: an answer may
+	// depend on the current coordinates only
+	for i := 0; i < len(cat) && !rep.Expired(); i += 5 {
+		for _, asMulti := range []bool{false, true} {
+			reuseStore = &struct {
+				mp   geom.MultiPolygon
+				bufs [][]geom.Path
+			}{}
+			orbit([]poly{cat[i]}, asMulti, 3)
+			reuseStore = nil
+		}
+	}
 	// multi-polygons of 2 and 3 members from a sub-catalogue
 	var sub []poly
 	for i := 0; i < len(cat); i += len(cat)/6 + 1 {
